@@ -103,6 +103,12 @@ def factories(rng):
     add('rfsq', lambda: ResidualFSQ(levels=[4, 3], num_quantizers=3, dim=2, quantize_dropout=True), 2, False, dec_vq, stochastic=True)
     add('rlfq', lambda: ResidualLFQ(dim=3, codebook_size=8, num_quantizers=2), 3, False, dec_vq)
     add('grfsq', lambda: GroupedResidualFSQ(dim=4, groups=2, levels=[3, 3], num_quantizers=2), 4, False, dec_vq)
+    # grouped / residual scalar quantizers WITH quantize_dropout: evaluation must stay deterministic (no layer dropped), training is stochastic
+    add('grfsq-dropout', lambda: GroupedResidualFSQ(dim=4, groups=2, levels=[3, 3], num_quantizers=3, quantize_dropout=True), 4, False, dec_vq, stochastic=True)
+    add('grlfq-dropout', lambda: GroupedResidualLFQ(dim=6, groups=2, codebook_size=8, num_quantizers=3, quantize_dropout=True), 6, False, dec_vq, stochastic=True)
+    add('grvq-dropout', lambda: GroupedResidualVQ(dim=4, groups=2, num_quantizers=3, codebook_size=5, decay=0.5, quantize_dropout=True), 4, True, dec_vq, stochastic=True)
+    add('rlfq-dropout', lambda: ResidualLFQ(dim=3, codebook_size=8, num_quantizers=3, quantize_dropout=True), 3, False, dec_vq, stochastic=True)
+    add('rsimvq-dropout', lambda: ResidualSimVQ(dim=3, num_quantizers=3, codebook_size=6, quantize_dropout=True), 3, False, dec_vq, stochastic=True)
     add('simvq', lambda: SimVQ(dim=3, codebook_size=6), 3, False, lambda m, idx: m.indices_to_codes(idx))
     add('rsimvq', lambda: ResidualSimVQ(dim=3, num_quantizers=2, codebook_size=6), 3, False, dec_vq)
     add('rpq', lambda: RandomProjectionQuantizer(dim=4, codebook_size=5, codebook_dim=2, num_codebooks=2), 4, False, None)
@@ -242,7 +248,7 @@ def correspond(ctx, scale):
         failures.append({'key': f'{m["name"]}:{m["op"]}:model-state-differs:{code}', 'what': f'{m["name"]}: the model (pure step = identity) and the implementation disagree on the state after "{m["op"]}" (component {code}); history {m["ops"]}',
                          'case': dict(m, term=cases[i][:30000])})
     return {'evaluations': evaluations, 'distinct_nontrivial': nontrivial,
-            'rule': 'random walks over {train, eval, frozen, decode} x 34 hand-written + 16 all-pairs (vlib/zoo.py) module configurations; state_dict + parameters + buffers compared bit-exactly around every pure operation, pure calls repeated; '
+            'rule': 'random walks over {train, eval, frozen, decode} x 39 hand-written + 16 all-pairs (vlib/zoo.py) module configurations; state_dict + parameters + buffers compared bit-exactly around every pure operation, pure calls repeated; '
                     'codebook-bearing pure calls also replayed through the Coq model (identity step); non-trivial = pure op executed after at least one state-changing training step',
             'samples': samples, 'failures': failures, 'distribution': dist}
 
